@@ -298,12 +298,18 @@ def replay(ctx, payload):
     check_history(ctx, c["hist"], c["univ"], c["nobj"], ctx.driver("drv_c17"))
 
 MANIFEST = dict(
-    level_text="Lean 4 theorems about an executable model of AliasRelation (class invariant preserved by every admissible add, "
-               "characterisation of aliases() after add, for unbounded histories), tied to the real class by a per-run "
-               "differential correspondence (exhaustive BFS over 3 signed names up to observable-state equivalence + random "
-               "histories with copies) and a direct signed-union-find oracle on the real code.",
+    level_text="Lean 4 theorems about an executable model of AliasRelation, for unbounded histories over any number of "
+               "objects: the full invariant (signed partition of _aliases, canonical map defined exactly on stored names "
+               "with one canonical name and a consistent sign per class, duplicate-free canonical-variables set) is "
+               "preserved by every admissible add, by remove (which never raises) and by copy; consequences: aliases() is "
+               "the signed class, canonical_signed is consistent, iteration yields one entry per non-trivial class, a copy "
+               "evolves independently, and the relation equals the inductively defined signed closure of the added pairs "
+               "minus the removed classes (closure_char).  Tied to the real class by a per-run differential correspondence "
+               "(exhaustive BFS over 3 signed names up to observable-state equivalence + random histories with copies) and "
+               "a direct signed-union-find oracle on the real code.",
     level_note="Trusted: Lean kernel + standard axioms; the harness; value semantics for Python's shared set objects "
                "(exercised by the correspondence). The model, not the Python, is what the theorems are about.",
-    technique="Lean 4 proof (invariant by induction over operation histories) + model/implementation correspondence",
+    technique="Lean 4 proof (invariant by induction over operation histories, refinement of an inductively defined signed "
+              "closure) + model/implementation correspondence",
 )
 READY = True
